@@ -486,6 +486,7 @@ structure Ops (σ : Type) where
   lenRead : M σ Unit                  -- what reading `length` does besides yielding `len` (valueOf of an object-valued length)
   conv : Val → M σ Val                -- an argument to a primitive (Value.number() / Value.string() of an object runs script)
   thisRaw : σ → Val                   -- call.This as passed: `recv` for an object, the primitive itself for a primitive receiver
+  locale : Val → List Val → M σ Val   -- obj := toObject(value); obj.get("toLocaleString") (TypeError unless callable) .call(obj, args…)
 
 /-- a value returned by a builtin -/
 inductive Ret where
@@ -687,6 +688,32 @@ def join (args : List Val) : M σ Ret := do
 /-- builtinArrayToString (builtin_array.go:29): `join.call(call.This, nil, …)` (the case of a non-callable `join`
     is not modelled) -/
 def toStringM (_args : List Val) : M σ Ret := join O E []
+
+/-- one element of builtinArrayToLocaleString (builtin_array.go:47-59): empty, undefined and null give "", any other
+    value `toLocaleString.call(call.runtime, objectValue(obj)).string()` — no arguments are handed on -/
+def localeElem (value : Val) : M σ (List Nat) :=
+  match value with
+  | .undef => pure []
+  | .null => pure []
+  | v => do
+    let r ← O.locale v []
+    let p ← O.conv r          -- Value.string() of an object result runs its toString
+    pure (E.ts p)
+
+/-- one turn of the loop: `value := thisObject.get(arrayIndexToString(index))`, then the element's string is appended -/
+def localeStep (index : Nat) (stringList : List (List Nat)) : M σ (List (List Nat)) := fun s =>
+  (do let x ← localeElem O E (O.get s index); pure (stringList ++ [x])) s
+
+/-- builtinArrayToLocaleString (builtin_array.go:38), the separator is "," -/
+def toLocaleStringCore (length : Nat) : M σ Ret :=
+  if length = 0 then pure (Ret.val (.str []))
+  else do
+    let stringList ← foldUp (localeStep O E) 0 length []
+    pure (Ret.val (.str (goJoin stringList [44])))
+
+def toLocaleStringM (_args : List Val) : M σ Ret := do
+  let length ← readLen O
+  toLocaleStringCore O E length
 
 /-- an argument of concat: a primitive / non-array value, or an array given by its elements as
     [[HasProperty]]/[[Get]] see them (`none` = absent) -/
@@ -1028,6 +1055,66 @@ def scriptedConv (putF : Key → Val → Bool → M Obj Unit) (delF : Key → Bo
         | none => .err (if c.throwRange then .range else .type) s3
   | p => .ok p s
 
+/-- a function of a scripted object is entered: the entry is logged and the next script entry played (as scriptedConv) -/
+def scriptedPlay (putF : Key → Val → Bool → M Obj Unit) (delF : Key → Bool → M Obj Bool) (lenOf : Obj → Nat)
+    (entry : List Val) : M St Val := fun s =>
+  let s1 := { s with log := entry :: s.log }
+  match s1.script with
+  | [] => .ok .undef s1
+  | c :: rest =>
+    let s2 := { s1 with script := rest }
+    let r : Res St Unit :=
+      match c.eff with
+      | .none => .ok () s2
+      | .push x => liftObj (putF (.idx (lenOf s2.o)) x false) s2
+      | .setLen x => liftObj (putF .length x false) s2
+      | .del k => liftObj (do let _ ← delF (.idx k) false; pure ()) s2
+    match r with
+    | .err e s3 => .err e s3
+    | .ok _ s3 =>
+      match c.res with
+      | some p => .ok p s3
+      | none => .err (if c.throwRange then .range else .type) s3
+
+/-- what the harness's `toLocaleString` functions log: the marker "L", their `this` (the primitive value of a wrapper),
+    `arguments.length`, the arguments -/
+def localeEntry (this : Val) (args : List Val) : List Val := [.str [76], this, .int args.length] ++ args
+
+/-- `toLocaleString` of the harness's element values, called on ToObject(value) with `args`: a scripted object logs and
+    plays the next script entry (object 7 has a `toLocaleString` that is not callable); on a primitive the (replaced)
+    Number/String/Boolean.prototype.toLocaleString logs and returns String(this.valueOf()) -/
+def leafLocale (putF : Key → Val → Bool → M Obj Unit) (delF : Key → Bool → M Obj Bool) (lenOf : Obj → Nat) (E : Env)
+    (v : Val) (args : List Val) : M St Val :=
+  match v with
+  | .obj id => if id = 7 then M.throw .type else scriptedPlay putF delF lenOf (localeEntry v args)
+  | p => fun s => .ok (.str (E.ts p)) { s with log := localeEntry p args :: s.log }
+
+/-- the elements of the nested arrays 50 + k of the harness -/
+def nestedElems (k : Nat) : List Val := [.obj (10 + k), .int (k : Int), .null, .obj (20 + k)]
+
+/-- the loop of builtinArrayToLocaleString once more, on the fixed elements of a nested array -/
+def nestedLocale (leaf : Val → M St Val) (conv : Val → M St Val) (E : Env) : List Val → M St (List (List Nat))
+  | [] => pure []
+  | v :: r => do
+    let x ← (match v with
+      | .undef => pure []
+      | .null => pure []
+      | v => do let y ← leaf v; let p ← conv y; pure (E.ts p))
+    let rest ← nestedLocale leaf conv E r
+    pure (x :: rest)
+
+/-- the element's toLocaleString: objects 50…59 are arrays (`nestedElems`), whose toLocaleString is
+    builtinArrayToLocaleString again — it hands no arguments on either -/
+def scriptedLocale (putF : Key → Val → Bool → M Obj Unit) (delF : Key → Bool → M Obj Bool) (lenOf : Obj → Nat) (E : Env)
+    (v : Val) (args : List Val) : M St Val :=
+  match v with
+  | .obj id =>
+    if 50 ≤ id ∧ id < 60 then do
+      let l ← nestedLocale (fun x => leafLocale putF delF lenOf E x []) (scriptedConv putF delF lenOf) E (nestedElems (id - 50))
+      pure (.str (goJoin l [44]))
+    else leafLocale putF delF lenOf E v args
+  | _ => leafLocale putF delF lenOf E v args
+
 /-- reading `length`: an object value is converted (ToUint32 runs its valueOf) and the primitive remembered -/
 def scriptedLenRead (getLen : Obj → Val) (conv : Val → M St Val) : M St Unit := fun s =>
   match getLen s.o with
@@ -1053,6 +1140,7 @@ def modelOps (E : Env) : Ops St where
     (scriptedConv (objectPut E) objectDelete (fun o => toUint32 E (objGet o .length)))
   conv := scriptedConv (objectPut E) objectDelete (fun o => toUint32 E (objGet o .length))
   thisRaw := fun s => s.thisRaw
+  locale := scriptedLocale (objectPut E) objectDelete (fun o => toUint32 E (objGet o .length)) E
 
 /-- `a[k] = v` / Object.defineProperty(a, k, {value: v, …}) when v may be a scripted object: only the length of an
     array converts its value — for an object `newLength = toUint32(v)` and then `float64(newLength) != v.float64()`
